@@ -30,7 +30,11 @@ RULE = ("one unit = one writer configuration (FileAccessor flat/deep x gzip "
         "a last-write-wins dict model, and the tree with the documented "
         "paths. Names family: every single name and ordered pair of 10 "
         "names with dots, nested directories and colons, looked up (all ten) "
-        "by readers of every layout. Confinement: 14 name spellings x {store, fetch, exists} x "
+        "by readers of every layout, together with directory names that must "
+        "not exist as files, and name/nested-name pairs on gzip layouts. "
+        "URL family: 6 directory names (spaces, non-ASCII, %, +, nested) x "
+        "5 spellings (path, file://, file://localhost, precomputed://file://, "
+        "precomputed://path) for the writer x 5 for the reader. Confinement: 14 name spellings x {store, fetch, exists} x "
         "both accessor classes with a sentinel sibling directory. "
         "Non-trivial states: >= 2 names present or a name overwritten.")
 ASSUMPTIONS = [
@@ -296,7 +300,9 @@ def observe(cfg, d, model, mimes, col, case, names=None):
             elif err is None:
                 col.violation("C12/fetch/never-stored-name-returned-data",
                               c2, "DataAccessError", bytes(got).hex()[:60])
-            if not isinstance(name, tuple):
+            if not isinstance(name, tuple) and name not in DIR_NAMES:
+                # (whether file_exists() of a *directory* name is False is
+                # not fixed by the statement; only fetching it must fail)
                 try:
                     ex = rd.file_exists(name)
                 except Exception as exc:
@@ -492,14 +498,36 @@ NAME_ALPHA = ["labels", "labels.v2", "seg.left.frag", "seg.left",
               "noext"]
 
 
+# directories that exist once a nested name or a chunk has been stored:
+# they are not stored names (fetch_file must fail)
+DIR_NAMES = ["a.b", "mesh", "v1.0", KEY]
+# a name and a name nested under it (possible when the outer one is stored
+# compressed, i.e. as "<name>.gz")
+NESTED = [("mesh/7:0", "mesh"), ("mesh", "mesh/7:0"), ("a.b/c", "a.b")]
+
+
 def names_family(cfg, col):
     """every single name (2 MIME types) and every ordered pair of distinct
     names from NAME_ALPHA stored through one configuration; all ten names
     are then looked up by readers of every configuration (a name that was
     never stored must not exist nor return data)"""
-    base = {"config": cfg, "family": "names", "names": NAME_ALPHA}
+    base = {"config": cfg, "family": "names",
+            "names": NAME_ALPHA + DIR_NAMES}
     before = col.r["violation_count"]
     runs = 0
+    run_history(cfg, ([["store_chunk", list(CHUNKS[0]), 2,
+                        "application/octet-stream", False]]
+                      if cfg["cls"] == "file" else []) + [
+                          ["store_file", "mesh/7:0", 1,
+                           "application/octet-stream", False]], col, base)
+    runs += 1
+    if cfg.get("gzip"):
+        for n1, n2 in NESTED:
+            run_history(cfg, [
+                ["store_file", n1, 2, "application/octet-stream", False],
+                ["store_file", n2, 1, "application/octet-stream", False]],
+                col, base)
+            runs += 1
     for n1 in NAME_ALPHA:
         for mime in ("application/octet-stream", "application/json"):
             run_history(cfg, [["store_file", n1, 2, mime, False]], col, base)
@@ -518,6 +546,97 @@ def names_family(cfg, col):
     col.ev(runs, runs, "names-ok" if not bad else "names-violating")
 
 
+DATASET_DIRS = ["plain", "my data", "\u00fc-dir", "100%", "a+b", "x y/z"]
+
+
+def url_spellings(path):
+    from urllib.parse import quote
+    q = quote(path)
+    return [("path", path), ("file-url", "file://" + q),
+            ("file-localhost", "file://localhost" + q),
+            ("precomputed-file", "precomputed://file://" + q),
+            ("precomputed-path", "precomputed://" + path)]
+
+
+def _eval_urls(col):
+    """a dataset directory named through every URL spelling the accessor
+    factory accepts (plain path, file://, precomputed:// prefixes, with
+    percent-escapes where the directory name needs them): what one spelling
+    stores, every other spelling fetches, and the files are in that
+    directory and nowhere else"""
+    from neuroglancer_scripts import accessor
+    root = sandbox.fresh_dir("c12u")
+    cwd = os.getcwd()
+    try:
+        os.chdir(root)          # stray relative paths stay in the sandbox
+        n = 0
+        for dname in DATASET_DIRS:
+            for wi in range(5):
+                n += 1
+                holder = os.path.join(root, "h%d" % n)
+                d = os.path.join(holder, dname)
+                os.makedirs(d)
+                sp = url_spellings(d)
+                wname, wurl = sp[wi]
+                case = {"kind": "urls", "directory": dname,
+                        "writer_spelling": wname}
+                try:
+                    w = accessor.get_accessor_for_url(
+                        wurl, {"flat": True, "gzip": False})
+                    w.store_file("info", b"{}", mime_type="application/json")
+                    w.store_chunk(b"DATA", KEY, CHUNKS[0])
+                except Exception as exc:
+                    col.ev(1, 1, "urls-bad")
+                    col.violation("C12/urls/store-failed/" + type(
+                        exc).__name__, case, "stored", repr(exc)[:200])
+                    continue
+                want = sorted(["info", "%s/%d-%d_%d-%d_%d-%d" % (
+                    (KEY,) + CHUNKS[0])])
+                have = sorted(
+                    os.path.relpath(os.path.join(r, f), d)
+                    for r, _, fs in os.walk(d) for f in fs)
+                stray = sorted(
+                    os.path.relpath(os.path.join(r, f), root)
+                    for r, _, fs in os.walk(root) for f in fs
+                    if not os.path.join(r, f).startswith(d + os.sep)
+                    and os.path.join(r, f).startswith(holder + os.sep)
+                    or not os.path.join(r, f).startswith(
+                        os.path.join(root, "h")))
+                ok = True
+                if have != want or stray:
+                    ok = False
+                    col.violation("C12/urls/not-stored-in-the-named-"
+                                  "directory", case, want,
+                                  {"in_directory": have,
+                                   "elsewhere": stray[:5]})
+                for rname, rurl in sp:
+                    c2 = dict(case, reader_spelling=rname)
+                    try:
+                        r = accessor.get_accessor_for_url(
+                            rurl, {"flat": True, "gzip": False})
+                        got = (bytes(r.fetch_file("info")),
+                               bytes(r.fetch_chunk(KEY, CHUNKS[0])),
+                               r.file_exists("info"))
+                    except Exception as exc:
+                        ok = False
+                        col.violation("C12/urls/other-spelling-cannot-read/"
+                                      + type(exc).__name__, c2,
+                                      "the stored bytes", repr(exc)[:200])
+                        continue
+                    if got != (b"{}", b"DATA", True):
+                        ok = False
+                        col.violation("C12/urls/other-spelling-reads-other-"
+                                      "data", c2, "the stored bytes",
+                                      repr(got)[:100])
+                col.ev(1, 1, "urls-ok" if ok else "urls-bad")
+                sandbox.rm(holder)
+        col.sample({"kind": "urls", "directory": "my data",
+                    "writer_spelling": "file-url"})
+    finally:
+        os.chdir(cwd)
+        sandbox.rm(root)
+
+
 def units(tier):
     depth = 3 if tier == "quick" else 4
     u = []
@@ -529,6 +648,7 @@ def units(tier):
     for cfg in writer_configs():
         u.append({"kind": "names", "config": cfg})
     u.append({"kind": "confinement"})
+    u.append({"kind": "urls"})
     return u
 
 
@@ -544,7 +664,9 @@ def space(tier):
 
 def run_unit(u):
     col = Collector()
-    if u["kind"] == "names":
+    if u["kind"] == "urls":
+        _eval_urls(col)
+    elif u["kind"] == "names":
         names_family(u["config"], col)
         col.sample({"config": u["config"], "family": "names",
                     "history": [["store_file", "seg.left.frag", 2,
@@ -565,6 +687,14 @@ def run_unit(u):
 
 def replay(case):
     col = Collector()
+    if case.get("kind") == "urls":
+        _eval_urls(col)
+        return [r for r in col.records()
+                if r["case"].get("directory") == case["directory"]
+                and r["case"].get("writer_spelling")
+                == case["writer_spelling"]
+                and r["case"].get("reader_spelling")
+                == case.get("reader_spelling")]
     if case.get("kind") == "confinement":
         _eval_confinement(col, case["config"])
         return [r for r in col.records()
